@@ -1,34 +1,9 @@
 (* The Lua sandbox as a statement about names: what lStatePool.New registers (Gen/LuaAllow.v,
    regenerated from /repo) against the documented allow-list.  The Lua VM itself is not modelled. *)
 From Coq Require Import String List Bool.
-From T38 Require Import Model.Tables Gen.LuaAllow.
+From T38 Require Import Model.Tables Gen.LuaAllow Model.Sandbox.
 Import ListNotations.
 Open Scope string_scope.
-
-(* names a script can reach by construction of the state: globals set by New/openBaseSubset,
-   functions of the partially opened base and os modules, the tile38 table *)
-Definition lua_names : list string :=
-  (lua_set_globals ++ lua_base_fns ++ map (fun f => String.append "os." f) lua_os_fns ++
-   map (fun f => String.append "tile38." f) lua_tile38_exports)%list.
-
-(* README / website: the script environment *)
-Definition documented_allow : list string :=
-  ["_G"; "_VERSION"; "_GOPHER_LUA_VERSION"; "json"; "tile38"; "tonumber"; "tostring";
-   "os.clock"; "os.difftime";
-   "tile38.call"; "tile38.pcall"; "tile38.error_reply"; "tile38.status_reply"; "tile38.sha1hex"; "tile38.distance_to"].
-
-Definition dangerous_names : list string :=
-  ["io"; "package"; "require"; "dofile"; "loadfile"; "load"; "loadstring"; "debug"; "channel"; "coroutine";
-   "os.execute"; "os.exit"; "os.getenv"; "os.remove"; "os.rename"; "os.tmpname"; "os.setenv"; "os.setlocale";
-   "os.date"; "os.time"; "module"; "newproxy"; "setfenv"; "getfenv"; "rawset"; "setmetatable"; "getmetatable";
-   "collectgarbage"; "print"].
-
-(* library opener functions (second component of allowedModules entries) *)
-Definition lua_module_libs : list string :=
-  map (fun s => match index 0 "=" s with Some i => substring (S i) (String.length s - S i) s | None => s end) lua_modules.
-
-Definition allowed_libs : list string :=
-  ["openBaseSubset."; "lua.OpenTable."; "lua.OpenMath."; "lua.OpenString."; "openOsSubset."].
 
 Definition inclb (a b : list string) : bool := forallb (fun x => in_strs x b) a.
 
